@@ -345,7 +345,7 @@ func c12RunScenario(t *testing.T, tr *verifsupport.Trace, sc c12Scenario, watchd
 	}
 }
 
-// c12Stress lets a fetch loop, auction loops and lookup loops run freely against each other: the
+// c12Stress lets a fetch loop, auction loops, BuilderBid loops and lookup loops run freely against each other: the
 // interleaving in which Lock() arrives between two lock operations of one call cannot be arranged
 // from outside.  The loops must end (NoWedge); the trace records whether they did.
 func c12Stress(r *c12Run, st c12Step, watchdog time.Duration) {
@@ -423,6 +423,13 @@ func c12Stress(r *c12Run, st c12Step, watchdog time.Duration) {
 				if (i+w)%3 == 0 {
 					op, ctx := newOp("lookup", v)
 					_, _ = s.ProposerConfig(ctx, c11AccountFor(op, v), c11Pubkeys[v])
+				} else if (i+w)%4 == 1 {
+					// the REST daemon's entry point: a bid that is never cached (a slot of its own), so every
+					// request takes builderBidMu and runs an immediate auction - the window between that and
+					// ProposerConfig's read lock cannot be gated
+					op, ctx := newOp("bbid", v)
+					op.bid = []string{"win", "nobid", "err"}[i%3]
+					_, _ = s.BuilderBid(ctx, phase0.Slot(1000000+i*8+w), phase0.Hash32{byte(w)}, c11Pubkeys[v])
 				} else {
 					op, ctx := newOp("auction", v)
 					op.bid = []string{"win", "nobid", "err"}[i%3]
